@@ -154,7 +154,9 @@ def exhaustive_repo_cases():
 
 EMB_BAD = ['garbage', 'instance of Nope { k = 1; };', 'class X { uint8 p; };', 'instance of TST_A { nope = 1; };',
            'instance of TST_A { k = \\"x\\"; }', '', ' ', '@', 'instance of TST_A { k = 5; };',
-           'Qualifier Q : boolean, Scope(any);', 'instance of TST_A { k = \\"a\\"; }; instance of', '/* x']
+           'Qualifier Q : boolean, Scope(any);', 'instance of TST_A { k = \\"a\\"; }; instance of', '/* x',
+           'class X { uint8 p = 300; };', 'instance of TST_A { k = \\"a\\"; p = 300; };', 'class X { uint8 p = \\"s\\"; };',
+           'instance of TST_A { k = \\"a\\"; p = ' + '9' * 4400 + '; };']
 
 
 def gen_embedded(rng):
@@ -340,7 +342,13 @@ def run_one(case, comp_plain, stub, comp_stub, wd, classify=True):
         comp = None
     out = obs['out']
     if out.get('mof'):
+        # errors inside the value of an EmbeddedInstance/EmbeddedObject property (compiled by a nested parse) carry
+        # file None and a position relative to that value: the offending input is then the embedded text
+        unit = out.pop('nested_unit', None)
+        obs['unit'] = 'nested' if unit is not None else 'outer'
         obs['pos'] = L.position_verdict(out, texts)
+        if obs['pos'] and unit is not None and out['file'] is None:
+            obs['pos'] = L.position_verdict(out, {None: unit})
     elif not out.get('ok') and not out.get('timeout') and classify:
         obs['cause'] = classify_leak(out, rerun, obs.get('calls'))
     # reuse: the known-good MOF on the SAME compiler object, compared with a fresh compiler
@@ -411,7 +419,7 @@ def judge(case, obs):
         if obs.get('pos'):
             what, _, fits = obs['pos'].partition(':')
             sig = {'kind': 'position', 'what': what, 'site': out['site'], 'exc': out['exc'],
-                   'reported_at': 'token' if out['site'] == 'p_error' else 'production'}
+                   'reported_at': 'token' if out['site'] == 'p_error' else 'production', 'unit': obs.get('unit')}
             if fits:
                 sig['fits'] = fits
             v.append((sig, {k: out[k] for k in ('lineno', 'column', 'file', 'context')}))
@@ -665,7 +673,7 @@ def k_first_error(run, cases, observations):
             if errs:
                 run.disagree({'op': 'first_error', 'mof': c['mof']}, errs[0], 'ok', 'model sees an error token, real compile succeeds')
             continue
-        if out.get('mof') and out.get('site') == 'p_error' and out.get('lineno') is not None:
+        if out.get('mof') and out.get('site') == 'p_error' and out.get('lineno') is not None and o.get('unit') == 'outer':
             # reported at a LexToken: must be one of the model's tokens up to the first error token
             upto = o['mtoks']
             if errs:
